@@ -28,6 +28,7 @@ import (
 
 	"github.com/pilosa/pilosa/internal/vx"
 	"github.com/pilosa/pilosa/pql"
+	"github.com/pilosa/pilosa/syswrap"
 )
 
 type c19Ser struct{}
@@ -277,7 +278,12 @@ func (n *c19Node) c19Run(cs c19Case) c19Result {
 			panic(err)
 		}
 	}()
-	if cs.Pre != "" {
+	if cs.Pre == "file-limit" {
+		// not an operation but a condition: the process is over its open-file budget (max-file-count),
+		// so every fragment opens its file for one call at a time and closes it again
+		syswrap.SetMaxFileCount(1)
+		defer syswrap.SetMaxFileCount(500000)
+	} else if cs.Pre != "" {
 		pq := map[string]string{
 			"clear-target":     fmt.Sprintf("Clear(%d, %s=%d)", c19Target, fname, c19Row),
 			"clear-sibling":    fmt.Sprintf("Clear(%d, %s=%d)", c19Sibling, fname, c19Row),
@@ -725,7 +731,7 @@ func TestVerif_C19(t *testing.T) {
 					}
 					seen[k] = true
 					n++
-					for _, pre := range []string{"clear-target", "clear-sibling", "set-target-plain"} {
+					for _, pre := range []string{"clear-target", "clear-sibling", "set-target-plain", "file-limit"} {
 						if pre == "set-target-plain" && cf.nostd {
 							continue
 						}
